@@ -1,4 +1,4 @@
-(* C05 - in-flight operations never share a message id; ids stay within 1..2^31-1. Pinned statements only. Allocator: for EVERY counter position and in-use set (not full), next_msgid returns an id in 1..MAX that is not in use and is the first free one in cyclic order after the counter (wrap MAX -> 1, in-use ids skipped). Connection level: in every history of fewer than 2^31-1 events the k-th operation started carries id k. Callers on several threads: taking the id (Alloc) and handing the request to the driver (Enqueue) are separate events - Start is exactly one followed at once by the other - so the histories quantified over include every interleaving in which other handles allocate AND send in between; an allocated, not yet sent operation is touched by nothing but its own Enqueue. Past the wrap-around point (theorems c05_wrap_..): for EVERY history, of any length and under any set of repairs, and from any well-formed state (counter anywhere in 0..MAX) the reserved set never holds an id twice nor one outside 1..MAX, and an allocation never hands out an id reserved at that moment; what fails there is known finding F22. *)
+(* C05 - in-flight operations never share a message id; ids stay within 1..2^31-1. Pinned statements only. Allocator: for EVERY counter position and in-use set (not full), next_msgid returns an id in 1..MAX that is not in use and is the first free one in cyclic order after the counter (wrap MAX -> 1, in-use ids skipped). Connection level: in every history of fewer than 2^31-1 events the k-th operation started carries id k. Callers on several threads: taking the id (Alloc) and handing the request to the driver (Enqueue) are separate events - Start is exactly one followed at once by the other - so the histories quantified over include every interleaving in which other handles allocate AND send in between; an allocated, not yet sent operation is touched by nothing but its own Enqueue. Past the wrap-around point (theorems c05_wrap_..): for EVERY history, of any length and under any set of repairs, and from any well-formed state (counter anywhere in 0..MAX) the reserved set never holds an id twice nor one outside 1..MAX, and an allocation never hands out an id reserved at that moment; what fails there is known finding F22. Frame: an event that is not an allocation (a result arriving - a Bind's included -, a poll, a scrub, the driver ending ..) never moves the counter and never adds to the reserved set. *)
 From RecordUpdate Require Import RecordUpdate.
 From Coq Require Import List ZArith NArith Lia Bool Arith.
 From Coq.Strings Require Import Byte.
@@ -41,6 +41,12 @@ Proof. exact ConnWrap.c05_wrap_alloc_fresh. Qed.
 Theorem c05_wrap_witness : 0 <= last s_wrap <= MAX /\ NoDup (inuse s_wrap) /\ (forall i : Z, In i (inuse s_wrap) -> 1 <= i <= MAX) /\ map o_mid (ops (fold_left step [Alloc KSingle None; Start KSingle None] s_wrap)) = [3; 4] /\ inuse (fold_left step [Alloc KSingle None; Start KSingle None] s_wrap) = [4; 3; MAX; 1; 2].
 Proof. exact ConnWrap.c05_wrap_witness. Qed.
 
+Theorem c05_counter_moves_only_on_allocation : forall (s : st) (e : ev), is_start e = false -> last (step s e) = last s.
+Proof. exact ConnNoWrap.last_step. Qed.
+
+Theorem c05_only_allocation_reserves : forall (s : st) (e : ev), is_start e = false -> forall i : Z, In i (inuse (step s e)) -> In i (inuse s).
+Proof. exact ConnNoWrap.inuse_step. Qed.
+
 Print Assumptions c05_next_is_first_free.
 Print Assumptions c05_ids_in_order.
 Print Assumptions c05_wrap_example.
@@ -53,3 +59,5 @@ Print Assumptions c05_wrap_bookkeeping.
 Print Assumptions c05_wrap_from_any_state.
 Print Assumptions c05_wrap_alloc_fresh.
 Print Assumptions c05_wrap_witness.
+Print Assumptions c05_counter_moves_only_on_allocation.
+Print Assumptions c05_only_allocation_reserves.
